@@ -214,34 +214,34 @@ def rule_none(ctx: Ctx):
         rep.floor("C01.none", f"exhaustion paths of {eng.name}._trigger", n_exh, 2)
 
 
-def rule_match(ctx: Ctx):
+def rule_match(ctx: Ctx, rule: str = "C01.match"):
     rep = ctx.rep
     tm = ctx.fn("Transition.match")
     for p in ctx.paths(tm):
         v = expand(p.value, p.events) if p.kind == "return" else None
         ok = isinstance(v, ast.Call) and show(v.func) == "self._events.match" and len(v.args) == 1 and show(v.args[0]) == "event"
-        rep.check(ok, "C01.match", tm.loc(), "Transition.match delegates the whole event id to its Events collection", tm.key,
+        rep.check(ok, rule, tm.loc(), "Transition.match delegates the whole event id to its Events collection", tm.key,
                   f"return {show(v)}")
     em = ctx.fn("Events.match")
     param = em.params[1] if len(em.params) > 1 else "event"
     it = ctx.p.find_fn("Events.__iter__")
     if it is not None:
         for p in ctx.paths(it):
-            rep.check(p.kind == "return" and show(expand(p.value, p.events)) == "iter(self._items)", "C01.match", it.loc(),
+            rep.check(p.kind == "return" and show(expand(p.value, p.events)) == "iter(self._items)", rule, it.loc(),
                       "iterating an Events collection yields its stored items", it.key, f"return {show(p.value)}")
     for p in ctx.paths(em):
         if p.kind != "return":
-            rep.violation("C01.match", em.loc(), "Events.match does not return a verdict", em.key, p.kind)
+            rep.violation(rule, em.loc(), "Events.match does not return a verdict", em.key, p.kind)
             continue
         v = expand(p.value, p.events)
         verdict = _match_shape(v, param)
         if verdict == "eq":
-            rep.ok("C01.match", em.loc(), "an event matches only by equality with a stored event id", shape=show(v))
+            rep.ok(rule, em.loc(), "an event matches only by equality with a stored event id", shape=show(v))
         elif verdict == "partial":
-            rep.violation("C01.match", em.loc(), "event matching uses a partial string operation (prefix/substring), "
+            rep.violation(rule, em.loc(), "event matching uses a partial string operation (prefix/substring), "
                           "so one event id can fire another event's transitions", em.key, f"return {show(v)}")
         else:
-            rep.unrecognised("C01.match", em.loc(), f"match expression `{show(v)}` is neither the accepted equality-membership idiom nor a known violating form")
+            rep.unrecognised(rule, em.loc(), f"match expression `{show(v)}` is neither the accepted equality-membership idiom nor a known violating form")
 
 
 PARTIAL_STR_OPS = {"startswith", "endswith", "find", "rfind", "index", "count", "partition", "split", "lower", "upper",
@@ -522,7 +522,7 @@ def rule_reject(ctx: Ctx):
             rep.ok("C01.reject", f.loc(), f"{eng.name}.{f.name}: {len(tries)} try statements between a validator and the caller")
 
 
-def rule_write(ctx: Ctx):
+def rule_write(ctx: Ctx, rule: str = "C01.write"):
     """C01.write: who may write the model's state field."""
     rep, k = ctx.rep, ctx.k
     setter_v = ctx.p.find_fn("StateMachine.current_state_value", setter=True)
@@ -536,7 +536,7 @@ def rule_write(ctx: Ctx):
             if isinstance(n, ast.Call) and isinstance(n.func, ast.Name) and n.func.id == "setattr" and len(n.args) == 3:
                 if "state_field" in show(n.args[1]):
                     n_sites += 1
-                    rep.check(fn is setter_v, "C01.write", fn.loc(n), "the model's state field is written only by the current_state_value setter",
+                    rep.check(fn is setter_v, rule, fn.loc(n), "the model's state field is written only by the current_state_value setter",
                               fn.key, norm_stmt(n))
             tgt = []
             if isinstance(n, ast.Assign):
@@ -548,32 +548,32 @@ def rule_write(ctx: Ctx):
                     if isinstance(sub, ast.Attribute) and isinstance(sub.ctx, ast.Store):
                         if sub.attr == "current_state_value":
                             n_sites += 1
-                            rep.check(fn is setter_s, "C01.write", fn.loc(n), "current_state_value is assigned only by the current_state setter",
+                            rep.check(fn is setter_s, rule, fn.loc(n), "current_state_value is assigned only by the current_state setter",
                                       fn.key, norm_stmt(n))
                         elif sub.attr == "current_state":
                             n_sites += 1
                             is_engine_act = fn.name == "_activate" and fn.cls is not None and k.base in ctx.p.mro(fn.cls)
                             inl = fn.cls is not None and k.base in ctx.p.mro(fn.cls)
-                            rep.check(is_engine_act or inl, "C01.write", fn.loc(n), "current_state is assigned only from the engines' activation code",
+                            rep.check(is_engine_act or inl, rule, fn.loc(n), "current_state is assigned only from the engines' activation code",
                                       fn.key, norm_stmt(n))
                             if inl:
                                 engine_writers.add(fn.key)
     for p in ctx.paths(setter_s):
         w = [e for e in p.of("store") if e.x.get("attr") == "current_state_value"]
-        rep.check(len(w) == 1 and show(w[0].x["value"]) == "value.value", "C01.write", setter_s.loc(),
+        rep.check(len(w) == 1 and show(w[0].x["value"]) == "value.value", rule, setter_s.loc(),
                   "the current_state setter stores the state's `value`", setter_s.key,
                   "; ".join(e.show() for e in w) or "no store")
-    rep.floor("C01.write", "state write sites", n_sites, 2 + len(k.engines))
+    rep.floor(rule, "state write sites", n_sites, 2 + len(k.engines))
     for eng in k.engines:
         fn, tp, aps = activate_paths(ctx, eng)
         for ap in aps:
             ws = [s for s in ap.syms if s.kind == "WRITE"]
             if ap.executing:
                 ok = len(ws) == 1 and xshow(ws[0].value, ap.path.events) == f"{tp}.target"
-                rep.check(ok, "C01.write", fn.loc(), f"{eng.name}: an executed transition writes exactly its own target, once", fn.key,
+                rep.check(ok, rule, fn.loc(), f"{eng.name}: an executed transition writes exactly its own target, once", fn.key,
                           "writes: " + ", ".join(s.name for s in ws))
             else:
-                rep.check(not ws, "C01.write", fn.loc(), f"{eng.name}: a rejected candidate writes nothing", fn.key,
+                rep.check(not ws, rule, fn.loc(), f"{eng.name}: a rejected candidate writes nothing", fn.key,
                           "writes: " + ", ".join(s.name for s in ws))
 
 
